@@ -1,6 +1,7 @@
 """Visitor group: VISIT-TOTAL (no diverging arm for a constructible variant), VISIT-COMPLETE (no child skipped)."""
 from lib import astmodel as am
 from lib import synq as q
+from lib.inline import walk_inl as W
 from lib.core import rule
 
 TB = "abra_core/src/translate_bytecode.rs"
@@ -280,7 +281,7 @@ def vc_resolve(ctx, r):
     helpers = [f for f, _ in q.iter_items(items) if f["k"] == "Fn" and f.get("body") is not None and ("func_helper" in f["name"] or f["name"] == "resolve_names_fn_arg")]
     found = False
     for f in helpers:
-        uses_default = any(x["k"] == "Field" and x["f"] == "default_val" for x in q.walk(f["body"]))
+        uses_default = any(x["k"] == "Field" and x["f"] == "default_val" for x in W(f["body"]))
         if uses_default:
             found = True
     r.ob(found, "resolve.rs:function-parameters:default_val-not-resolved", file, helpers[0]["l"] if helpers else 0,
